@@ -7,6 +7,10 @@ V = os.path.dirname(os.path.dirname(os.path.abspath(__file__)))
 TECH = "TLA+ specification checked with TLC; conformance by replaying TLC-enumerated scenarios into the library and validating the recorded traces against the specification with TLC (trace spec)"
 
 CHECKS = {
+ "C01": ("4 C01", "AidlStore.AddContent is enabled for every content and Validate returns one result per id (AidlProject.KeysExact, model-checked on MC_Store/MC_Hist); the trace spec has no action for a call that panics, aborts or hangs, so every such event is reported; seeded soups (characters, tokens, mutations, nesting to depth 64, 64 KiB documents, 1-6 files) and exhaustive single injections of a hazard alphabet at every token/comment/string boundary of frame documents are replayed."),
+ "C11": ("4 C11", "The trace spec keeps memo[store] -> digest of the first validation (trees + diagnostics in order) and demands equality for every later validation of an equal (id, content) map: repeated calls, new instances, reversed / shuffled insertion orders, fresh threads and 2-3 separate OS processes; ascending (line, column) order is checked on every observation. TLC enumerates family 'order' (several diagnostics on one line, ambiguous imports, duplicate keys)."),
+ "C12": ("4 C12", "AidlStore/AidlProject is the state machine; TLC enumerates MC_Hist (all histories of the stated length over 3 ids x 4 contents, from the empty parser and from every one of the 125 abstract states through two different entry histories) checking KeysExact / PureFunction / OnlyNamedSlotChanges, and attaches the abstract store after every step; the replay compares the live parser with a fresh parser loaded from that abstract store after every step (trace spec memo), add_file outcomes included."),
+ "C13": ("4 C13", "AidlProject.Locality is model-checked; TLC enumerates every transition of the locality model (8 contents incl. body variants, kind changes, unrelated and malformed files) and the trace spec requires an equal result for a file whenever its content and the facts about its imports (key registered? which kind?) are equal, before/after each perturbation."),
  "C05": ("4 C05", "AidlValidate.AllowedRK / ExpC05 state the scoping rule; TLC enumerates MC_Validate family 'res' exhaustively within the bound and every recorded Validate event (also of random projects) is judged by the trace spec: resolved kind of every named type at any depth must be in the allowed set, and exactly one unknown-type Error per unresolved name."),
  "C06": ("4 C06", "AidlValidate.ExpC06 states the import / forward-declaration diagnostics as a bag; family 'imp' (all import lists up to the bound x forward lists x usage) is enumerated by TLC, replayed, and the trace spec demands a perfect matching between the expected bag and the observed slice (ranges, severities, related ranges)."),
  "C07": ("4 C07", "AidlValidate.DirReq / ExpC07; family 'dir' is the complete 816-cell product (17 categories x 4 directions x method oneway x interface oneway x 3 positions), replayed and judged by the trace spec; random projects on top."),
